@@ -797,6 +797,12 @@ def _cpp_runtime_ir(ctx: core.Ctx):
                                 entry["helpers"].setdefault(inst["name"], []).append((cppast.params_of(inst), body))
                 if m.get("kind") == "CXXRecordDecl" and m.get("name") == "State":
                     fields["State"] = [f.get("name") for f in cppast.kids(m) if f.get("kind") == "FieldDecl"]
+                # user-written constructors as instantiated (plain, or the specialisations of a constructor template): which parameters they read at
+                # all (clang's own use marking)
+                for cm in [m] + ([i_ for i_ in cppast.kids(m)] if m.get("kind") == "FunctionTemplateDecl" else []):
+                    if cm.get("kind") == "CXXConstructorDecl" and not cm.get("isImplicit") and any(c_.get("kind") == "CXXCtorInitializer" for c_ in cppast.kids(cm)):
+                        ps = [(c_.get("name"), bool(c_.get("isUsed") or c_.get("isReferenced"))) for c_ in cppast.kids(cm) if c_.get("kind") == "ParmVarDecl"]
+                        entry.setdefault("ctors", []).append((ps, cm.get("loc", {}).get("line")))
     return out
 
 
